@@ -99,6 +99,8 @@ def guarded_proof_phase(ctx, want_key):
 
 def replay(ctx):
     obj = json.load(open(ctx.replay))
+    if vlib.replay_program(obj):
+        return
     text = obj.get('replay_case')
     if not text:
         print('replay file has no replay_case (a proof obligation or the translator, not an input): %s' % json.dumps(obj)[:1500]); return
